@@ -1,6 +1,7 @@
 import Holpy.C17.Proofs
 import Holpy.C17.ExplainProofs
 import Holpy.C17.CompleteFinal
+import Holpy.C17.Rename
 /-
 C17 — property theorems about the model of `prover/congc.py: CongClosure` (`Model.lean`).
 `run ops` is the structure after the operations `ops` (`add_var` / `merge(a, b)` /
@@ -116,5 +117,26 @@ theorem order_independent (ops1 ops2 : List Op) (hperm : ∀ op, op ∈ ops1 ↔
 
 /- non-vacuity: the reversed sequence has the same members; both answer `True` for (3, 6). -/
 example : test (run [.mergeC 2 5, .mergeC 1 4, .mergeF 4 5 6, .mergeF 1 2 3]) 3 6 = .ok true := by rfl
+
+/-- The answers do not depend on the names of the constants: renaming all constants injectively
+(the HOL wrapper numbers its constants `s1, s2, …` in the order in which terms happen to be added)
+leaves every `test` answer on entered constants unchanged. -/
+theorem renaming_invariant (ρ : Cst → Cst) (inj : ∀ x y, ρ x = ρ y → x = y) (ops : List Op) (a b : Cst)
+    (ha : entered ops a) (hb : entered ops b) :
+    test (run (ops.map (Op.rename ρ))) (ρ a) (ρ b) = test (run ops) a b := by
+  have ha' := entered_rename (ρ := ρ) ha
+  have hb' := entered_rename (ρ := ρ) hb
+  obtain ⟨v1, h1⟩ := (test_defined_iff_entered _ _ _).2 ⟨ha', hb'⟩
+  obtain ⟨v2, h2⟩ := (test_defined_iff_entered ops a b).2 ⟨ha, hb⟩
+  rw [h1, h2]
+  congr 1
+  cases v1 <;> cases v2 <;> try rfl
+  · have := test_complete _ _ _ ha' hb' ((Cl.rename_iff inj).2 (test_sound ops a b h2))
+    rw [h1] at this; cases this
+  · have := test_complete ops a b ha hb ((Cl.rename_iff inj).1 (test_sound _ _ _ h1))
+    rw [h2] at this; cases this
+
+/- non-vacuity: the earlier example with every constant shifted by 10. -/
+example : test (run ([Op.mergeF 1 2 3, .mergeF 4 5 6, .mergeC 1 4, .mergeC 2 5].map (Op.rename (· + 10)))) 13 16 = .ok true := by rfl
 
 end Holpy.C17
